@@ -335,6 +335,11 @@ pub fn handle_scenarios(thorough: bool) -> Vec<Scenario> {
             Op::new("reopen").handle("h:a/b").flags(O_RDONLY | O_DIRECTORY),
             Op::new("reopen").handle("h:e/f").flags(O_RDWR | O_APPEND),
             Op::new("reopen").handle("nf:a/b/lnk").flags(O_RDONLY),
+            // refused flag combinations: error paths that start from a VALID descriptor lent by the caller
+            Op::new("reopen").handle("h:e/f").flags(O_RDONLY | O_CREAT).capi(),
+            Op::new("reopen").handle("h:e/f").flags(O_WRONLY | O_EXCL).capi(),
+            Op::new("reopen").handle("h:a/b").flags(O_RDWR | O_TMPFILE).capi(),
+            Op::new("reopen").handle("h:e/f").flags(O_RDWR | O_CREAT | O_EXCL),
             // O_PATH: nothing but the identity of the returned object tells a correct re-open from a descriptor of something else
             Op::new("reopen").handle("h:e/f").flags(O_PATH),
             Op::new("reopen").handle("h:a/b").flags(O_PATH | O_DIRECTORY).capi(),
